@@ -74,6 +74,13 @@ Qed.
 Theorem C12_restorer_starts_from_init_state : restorefile_starts_from_init_state = true.
 Proof. vm_compute. reflexivity. Qed.
 
+(* ... and after updateImports RestoreFile does what Model/Restore.finish does, in this order: restore the
+   tree, append every recorded comment group to the file's own Comments, register the file under the base
+   with the size fileSize computes, install the line table (panic when SetLines refuses); the Extras pass
+   comes after that and the restored file is returned *)
+Theorem C12_restorefile_finishes_as_the_model : restorefile_finishes_as_the_model = true.
+Proof. vm_compute. reflexivity. Qed.
+
 
 
 (* The four position-assigning functions of decorator/restorer.go are translated on every run into
@@ -140,3 +147,4 @@ Print Assumptions C12_applyLiteral_source_computes_the_model.
 Print Assumptions C12_fileSize_source_computes_the_model.
 Print Assumptions C12_cursor_sources_are_within_the_language.
 Print Assumptions C12_cursor_sources_run.
+Print Assumptions C12_restorefile_finishes_as_the_model.
